@@ -66,7 +66,7 @@ def one(job):
     s4 = job["s4"]
     tmp = job["tmp"]
     os.makedirs(tmp, exist_ok=True)
-    env = core.base_env(tmpdir=tmp, extra=dict(job["extra_env"], S4_VERIF_TRACE=job["trace"]))
+    env = core.base_env(tmpdir=tmp, extra=(dict(job["extra_env"], S4_VERIF_TRACE=job["trace"]) if job["trace"] else dict(job["extra_env"])))
     t0 = time.monotonic()
     p = subprocess.Popen([s4, "--color", "never", "-t=+00:00"] + job["files"], env=env, stdin=subprocess.DEVNULL, stdout=subprocess.DEVNULL,
                          stderr=subprocess.PIPE, start_new_session=True)
@@ -75,7 +75,13 @@ def one(job):
         if job["mode"] == "normal":
             _, err = p.communicate(timeout=180)
         else:
-            if job["sig_after_event"]:
+            if job["sig_after_event"] == "tmpdir-not-empty":
+                # no hooks in play: the temporary file itself is the observable
+                tw = time.monotonic()
+                while not leftovers(tmp) and time.monotonic() - tw < 30 and p.poll() is None:
+                    time.sleep(0.005)
+                res["event_seen"] = bool(leftovers(tmp))
+            elif job["sig_after_event"]:
                 res["event_seen"] = wait_for_event(job["trace"], job["sig_after_event"], 30)
             time.sleep(job["sig_delay"])
             if p.poll() is None:
@@ -95,10 +101,60 @@ def one(job):
     res["err"] = err[-300:]
     res["left"] = leftovers(tmp)
     try:
-        res["trace_tail"] = open(job["trace"], "rb").read()[-1500:].decode("utf-8", "replace")
+        res["trace_tail"] = open(job["trace"], "rb").read()[-1500:].decode("utf-8", "replace") if job["trace"] else ""
     except FileNotFoundError:
         res["trace_tail"] = ""
     return res
+
+
+def natural_promptness(ctx, s4, rng, d):
+    """Promptness with no hook in play (no trace, no plan, no schedule: the hooks' own work inside the printing loop
+    changes how its lock hand-over with the signal handler falls out). A source that takes seconds to extract by itself:
+    an .evtx.xz of 24..48 MiB of hex digits (not a valid event log, which does not matter: the run is interrupted while the
+    worker extracts it). Beside it 0..30 small sources that are done within milliseconds (not-evtx payloads that fail, or
+    valid ones), so their temporary files are gone when the signal comes. Decided on order, not on a stopwatch: the
+    uninterrupted run of the same argv takes T; the interrupted run (signal ~0.4 s after the temporary file appeared) must
+    end before 0.6 T; ending at >= 0.9 T means the interrupt waited for the worker; in between is inconclusive."""
+    import lzma
+    big = os.path.join(d, "big.evtx.xz")
+    rnd = rng.getrandbits(64)
+    import hashlib
+    with open(big, "wb") as f:
+        c = lzma.LZMACompressor(format=lzma.FORMAT_XZ, check=lzma.CHECK_CRC32, preset=0)
+        for i in range(ctx.pick(20, 24)):
+            # 2 MiB of hex digits per chunk, incompressible beyond the 2:1 of hex
+            blk = b"".join(hashlib.sha256(b"%d-%d-%d" % (rnd, i, k)).hexdigest().encode() for k in range(1 << 15))
+            f.write(c.compress(blk))
+        f.write(c.flush())
+    smalls_bad, smalls_ok = [], []
+    ok_src = [p for p in fixtures.evtxs() if "kernelpnp" in p]
+    for i in range(30):
+        smalls_bad.append(gen.write(os.path.join(d, "small-bad-%02d.evtx.gz" % i), gen.gz_bytes(b"this is not an evtx file %d\n" % i * 100)))
+    if ok_src:
+        okb = gen.gz_bytes(open(ok_src[0], "rb").read(), level=1)
+        for i in range(30):
+            smalls_ok.append(gen.write(os.path.join(d, "small-ok-%02d.evtx.gz" % i), okb))
+    variants = [("solo", [], [])]
+    for k in ctx.pick([30], [3, 10, 30]):
+        variants.append(("%d-failed-sources-done" % k, [], smalls_bad[:k]))
+        if smalls_ok:
+            variants.append(("%d-filtered-sources-done" % k, ["-a", "20400101T000000"], smalls_ok[:k]))
+    out = []
+    n = 0
+    for name, opts, smalls in variants:
+        files = opts + smalls + [big]
+        def mk(mode, ev=None, delay=0.0):
+            nonlocal n
+            wd = os.path.join(ctx.work, "np%03d" % n)
+            n += 1
+            return dict(s4=s4, files=files, kinds=("evtx",), conts=("gz", "xz") if smalls else ("xz",), extra_env={}, mode=mode, sig_after_event=ev,
+                        sig_delay=delay, tmp=os.path.join(wd, "tmp"), trace=None, phase="promptness-natural:" + name)
+        full = one(mk("normal"))
+        for _ in range(ctx.pick(4, 10)):
+            r = one(mk("sigint", "tmpdir-not-empty", 0.4))
+            r["t_full"] = full["t_exit"]
+            out.append(r)
+    return out
 
 
 def run(ctx):
@@ -156,6 +212,7 @@ def run(ctx):
     for _ in range(ctx.pick(6, 40)):
         add("sigint", pick_files(), {"S4_VERIF_PLAN": "ntf.registered:*:0=%d" % HOLD_US}, "ntf.registered", 1.0, phase="promptness")
     results = core.pmap(one, jobs, workers=16)
+    results += natural_promptness(ctx, s4, rng, d)
     lat = []
     for r in results:
         j = r["job"]
@@ -193,6 +250,19 @@ def run(ctx):
                               "run until that worker sent a datum" % dt, info=info)
             else:
                 ctx.inconc("promptness-between-thresholds")
+        elif j["phase"].startswith("promptness-natural") and r["sent"]:
+            tf = r["t_full"]
+            info["uninterrupted_run_s"] = round(tf, 2)
+            lat.append(round(r["t_exit"] - r["t_sig"], 2))
+            if tf < 2.0 or r["t_sig"] > 0.5 * tf:
+                ctx.inconc("promptness-natural: source too fast to tell")
+            elif r["t_exit"] < 0.6 * tf:
+                ctx.count("promptness (no hooks): prompt")
+            elif r["t_exit"] >= 0.9 * tf:
+                ctx.violation("C18|interrupt-not-acted-upon-while-a-worker-extracts|%s" % ("solo" if j["phase"].endswith("solo") else "beside-finished-sources"),
+                              "SIGINT at %.2f s, exit at %.2f s; the uninterrupted run takes %.2f s (%s)" % (r["t_sig"], r["t_exit"], tf, j["phase"]), info=info)
+            else:
+                ctx.inconc("promptness-natural-between-thresholds")
         elif j["mode"] == "sigint" and r["sent"] and j["phase"] != "promptness":
             dt = r["t_exit"] - r["t_sig"]
             lat.append(round(dt, 2))
